@@ -104,9 +104,23 @@ fn long_text(len: usize) -> String {
     s
 }
 
-unsafe fn fake_static(s: &str) -> &'static str {
-    // the harness guarantees that no handle built from this outlives `s`
-    unsafe { std::mem::transmute::<&str, &'static str>(s) }
+/// Backing memory of a pretended `&'static str`. It is held as a raw pointer: moving a `Box`
+/// around after the reference was taken would, under the aliasing model Miri checks, end the
+/// reference's validity (the harness, not the crate, would be at fault). The memory is released
+/// when this is dropped; the harness drops every handle built from it first.
+pub struct Backing(*mut str);
+impl Backing {
+    fn new(text: &str) -> (Backing, &'static str) {
+        let raw: *mut str = Box::into_raw(Box::<str>::from(text));
+        // SAFETY: valid until `Backing` is dropped
+        (Backing(raw), unsafe { &*raw })
+    }
+}
+impl Drop for Backing {
+    fn drop(&mut self) {
+        // SAFETY: created by Box::into_raw in `new`, released once
+        drop(unsafe { Box::from_raw(self.0) });
+    }
 }
 
 // -------------------------------------------------------------------------------------
@@ -133,7 +147,7 @@ pub const STORAGES: [Storage; 7] = [Storage::Inline, Storage::Static, Storage::S
 pub struct Built {
     pub s: LeanString,
     pub siblings: Vec<LeanString>,
-    _backing: Option<Box<str>>,
+    _backing: Option<Backing>,
 }
 pub fn build(text: &str, st: Storage) -> Option<Built> {
     let mk = |s, siblings, backing| Some(Built { s, siblings, _backing: backing });
@@ -148,13 +162,13 @@ pub fn build(text: &str, st: Storage) -> Option<Built> {
             if text.len() <= INLINE {
                 return None;
             }
-            let b: Box<str> = text.into();
-            let s = LeanString::from_static_str(unsafe { fake_static(&b) });
+            let (b, st) = Backing::new(text);
+            let s = LeanString::from_static_str(st);
             mk(s, vec![], Some(b))
         }
         Storage::StaticTruncated => {
-            let b: Box<str> = format!("{text}{}", ascii(INLINE + 4)).into();
-            let mut s = LeanString::from_static_str(unsafe { fake_static(&b) });
+            let (b, st) = Backing::new(&format!("{text}{}", ascii(INLINE + 4)));
+            let mut s = LeanString::from_static_str(st);
             s.truncate(text.len());
             mk(s, vec![], Some(b))
         }
@@ -670,8 +684,8 @@ fn zoo_build(t: &str, route: usize) -> Option<Built> {
     match route {
         0 => mk(LeanString::from(t), vec![]),
         1 => {
-            let b: Box<str> = t.into();
-            let s = LeanString::from_static_str(unsafe { fake_static(&b) });
+            let (b, st) = Backing::new(t);
+            let s = LeanString::from_static_str(st);
             Some(Built { s, siblings: vec![], _backing: Some(b) })
         }
         2 => {
@@ -891,6 +905,7 @@ pub fn c20_sweep(cx: &SweepCtx, quick: bool) {
     par_for_guarded(cx, "C20", texts_.len(), 1, |ti| {
         let t = &texts_[ti];
         for st in STORAGES {
+            cx.trace(&format!("niche sweep: {st:?} text of {} bytes ending in {:#04x}", t.len(), t.as_bytes().last().copied().unwrap_or(0)));
             shim::with(|s| s.reset());
             let b = match quiet(|| build(t, st)) {
                 Ok(Some(b)) => b,
